@@ -1775,8 +1775,50 @@ pub fn c05(r: &mut Rng, out: &mut Out, n: usize) {
         let pts: Vec<Point3D> = v.iter().map(|p| Point3D::new(p.0, p.1, p.2)).collect();
         tp_line(out, &pts, Point3D::new(-0.5075034169336001, -0.6347363167308615, -1.456341228467147));
     }
+    // regression input (repaired by "fix: point-in-loop takes the side of an edge at a vertex on the ray from the sign ..."):
+    // a square of side 200 in a tilted plane, the ray through a corner
+    #[cfg(not(feature = "float"))]
+    {
+        let pts: Vec<Point3D> = [
+            (-100.0, -100.0, -126.50000000000001),
+            (100.0, -100.0, 103.50000000000001),
+            (100.0, 100.0, 126.50000000000001),
+            (-100.0, 100.0, -103.50000000000001),
+        ]
+        .iter()
+        .map(|p: &(f64, f64, f64)| Point3D::new(p.0, p.1, p.2))
+        .collect();
+        tp_line(out, &pts, Point3D::new(62.5, 25.0, 74.75000000000001));
+    }
     let mut emitted = 0;
     while emitted < n {
+        if r.below(40) == 0 {
+            // large loops in tilted planes, the test ray through a corner: for loops a few hundred units across the cross
+            // products of the vertex rule have squared lengths of 1e10 and more, beyond any absolute tolerance
+            let sz = r.pick(&[60., 100., 150., 300., 1000.]);
+            let k = r.range(0., 2.) as f64;
+            let k2 = r.range(-0.3, 0.3) as f64;
+            let f = |x: f64, y: f64| -> Point3D { Point3D::new((x * sz) as Float, (y * sz) as Float, (k * x * sz + k2 * y * sz) as Float) };
+            let asp = r.pick(&[1., 1., 0.6, 1.7]);
+            let mut o: Vec<(f64, f64)> = vec![(-1., -asp), (1., -asp), (1., asp), (-1., asp)];
+            if r.bool() {
+                // an L: one more corner to pass through
+                o = vec![(-1., -asp), (1., -asp), (1., asp), (0.2, asp), (0.2, 0.3 * asp), (-1., 0.3 * asp)];
+            }
+            if r.bool() {
+                o = vec![o[1], o[0]].into_iter().chain(o[2..].iter().rev().cloned()).collect();
+            }
+            let pts: Vec<Point3D> = o.iter().map(|p| f(p.0, p.1)).collect();
+            let m0 = ((o[0].0 + o[1].0) / 2., (o[0].1 + o[1].1) / 2.);
+            for _ in 0..3 {
+                let v = o[2 + r.below(o.len() - 2)];
+                let t = r.pick(&[0.25, 0.375, 0.5, 0.625, 0.75, 1.25]);
+                let q = (m0.0 + (v.0 - m0.0) * t, m0.1 + (v.1 - m0.1) * t);
+                tp_line(out, &pts, f(q.0, q.1));
+                emitted += 1;
+            }
+            continue;
+        }
         if r.below(16) == 0 {
             // the test ray (from the first edge's midpoint through the query) passes exactly through a vertex A, and the edge
             // that leaves A (or arrives at it) makes an angle eps with the ray: below about 1e-4 rad the two count as parallel
